@@ -177,11 +177,80 @@ pub fn find(_args: &[String]) -> i32 {
   }
 }
 
+/// C04 (bounded stand-in): JSON verdict == CBOR verdict for every JSON-expressible value, over the schema
+/// family used above (types, two-way choices, .and/.within, .eq/.ne, prelude names, ranges, controls).
+pub fn find_mirror(_args: &[String]) -> i32 {
+  let mut schemas: Vec<String> = vec![];
+  for a in TYPES {
+    schemas.push(format!("t = {}\n", a));
+    for b in TYPES {
+      if a < b {
+        schemas.push(format!("t = {} / {}\n", a, b));
+      }
+    }
+  }
+  for op in [".and", ".within"] {
+    for a in ["int", "uint", "number", "tstr", "any", "float"] {
+      for b in ["int", "uint", "nint", "5", "tstr", "number", "\"a\""] {
+        schemas.push(format!("t = {} {} {}\n", a, op, b));
+      }
+    }
+  }
+  for (t, lit) in [("int", "5"), ("uint", "0"), ("tstr", "\"a\""), ("number", "1.5"), ("int", "-3")] {
+    for op in [".eq", ".ne", ".lt", ".le", ".gt", ".ge"] {
+      if t == "tstr" && op != ".eq" && op != ".ne" {
+        continue;
+      }
+      schemas.push(format!("t = {} {} {}\n", t, op, lit));
+    }
+  }
+  for x in ["integer", "unsigned", "text", "bytes", "nil", "null", "bool", "false", "0...10", "-5..5", "tstr .size 1", "tstr .size (0..1)", "uint .size 1", "tstr .regexp \"a*\"", "[int, ? tstr]", "{ ? \"a\": int }", "{ * tstr => any }", "[* any]", "float16", "float32", "float64", "1.5", "-3", "18446744073709551615", "uint .default 5"] {
+    schemas.push(format!("t = {}\n", x));
+  }
+  let mut tried = 0u64;
+  let mut failing: Vec<String> = vec![];
+  let mut first: Option<String> = None;
+  for sc in &schemas {
+    for v in VALUES {
+      if v.json.is_empty() {
+        continue;
+      }
+      tried += 1;
+      let (j, c) = (jv(sc, v).unwrap(), cv(sc, v));
+      let differs = match (&j, &c) {
+        (Ok(a), Ok(b)) => a != b,
+        (Err(a), Err(b)) => a.starts_with("not a verdict") != b.starts_with("not a verdict"),
+        (Ok(_), Err(m)) | (Err(m), Ok(_)) => !m.starts_with("not a verdict") || true,
+      };
+      if differs {
+        let id = format!("mirror##{}##{}", sc.trim(), v.json);
+        if first.is_none() {
+          first = Some(format!("{} : JSON {:?}, CBOR {:?}", id, j, c));
+        }
+        failing.push(id);
+      }
+    }
+  }
+  println!(
+    "{{\"found\":{},\"tried\":{},\"failing\":{},\"first\":{}}}",
+    !failing.is_empty(),
+    tried,
+    serde_json::to_string(&failing).unwrap(),
+    jstr(&first.unwrap_or_default())
+  );
+  if failing.is_empty() {
+    0
+  } else {
+    1
+  }
+}
+
 pub fn replay(args: &[String]) -> i32 {
   // witness {"id": "..."}: re-run the sweep and look the id up
   let w: serde_json::Value = serde_json::from_str(&args[0]).expect("witness json");
   let id = w["id"].as_str().unwrap().to_string();
-  let out = std::process::Command::new(std::env::current_exe().unwrap()).args(["u5d", "find"]).output().unwrap();
+  let mode = if id.starts_with("mirror##") { "findmirror" } else { "find" };
+  let out = std::process::Command::new(std::env::current_exe().unwrap()).args(["u5d", mode]).output().unwrap();
   let text = String::from_utf8_lossy(&out.stdout);
   let still = text.lines().filter(|l| l.starts_with('{')).any(|l| {
     serde_json::from_str::<serde_json::Value>(l).map(|j| j["failing"].as_array().map(|a| a.iter().any(|x| x == &serde_json::Value::String(id.clone()))).unwrap_or(false)).unwrap_or(false)
